@@ -130,10 +130,40 @@ class Made:
         self.owned_filters = None
 
 
-def make(entry, a, data, alloc=None):
+def make_with_history(entry, a, data, alloc=None, prior=None):
+    """The same lzma_stream is first used for the `prior` codings (each [entry, args, data hex], run to their end in one
+    shot) and then re-initialised WITHOUT lzma_end() for the coder under test: liblzma reuses the coder structures,
+    dictionaries and buffer caches, and the result must not depend on that history."""
+    c = lz.Coder(alloc)
+    ap = alloc.ptr() if alloc is not None else None
+    for pe, pa, pd in (prior or []):
+        pdata = bytes.fromhex(pd) if isinstance(pd, str) else pd
+        pm = make(pe, pa, pdata, alloc, coder=c)
+        if pm.ret == lz.OK:
+            pb = Bufs(pm.data, max(8192, 16 * len(pm.data) + 8192))
+            drive(pe, pm, pb, [], [], 0, 0)
+        L = lz.L()
+        if pm.index_out is not None and pm.index_out.value:
+            L.lzma_index_end(pm.index_out, ap)
+        if pm.owned_filters is not None:
+            L.lzma_filters_free(pm.owned_filters, None)
+        c.prior_keep = getattr(c, "prior_keep", []) + [pm]      # e.g. the lzma_index of an index encoder must outlive it
+    m = make(entry, a, data, alloc, coder=c)
+    return m
+
+
+def end_history(m):
+    L = lz.L()
+    for pm in getattr(m.c, "prior_keep", []):
+        if pm.index_in:
+            L.lzma_index_end(pm.index_in, None)
+    m.c.prior_keep = []
+
+
+def make(entry, a, data, alloc=None, coder=None):
     L = lz.L()
     m = Made()
-    c = lz.Coder(alloc)
+    c = coder if coder is not None else lz.Coder(alloc)
     m.c = c
     m.data = data
     ap = alloc.ptr() if alloc is not None else None
@@ -223,6 +253,7 @@ def unmake(m, alloc=None):
     L = lz.L()
     ap = alloc.ptr() if alloc is not None else None
     m.c.end()
+    end_history(m)
     if m.index_out is not None and m.index_out.value:
         L.lzma_index_end(m.index_out, ap)
         m.index_out.value = None
@@ -264,6 +295,7 @@ def drive(entry, m, bufs, ins, outs, irep=0, orep=0, rec=None, tail=0, xw=False,
     final = None         # (ret, total_in, op) at the terminal call; the starving tail calls come after it
     extra = 0
     seeks = 0
+    notif_stall = 0
     notes = []           # informational return codes (LZMA_NO_CHECK / UNSUPPORTED_CHECK / GET_CHECK) and where they came
     while True:
         if terminal:
@@ -332,6 +364,8 @@ def drive(entry, m, bufs, ins, outs, irep=0, orep=0, rec=None, tail=0, xw=False,
         if starving == 0 and not starve_told:
             problems.append("starve")
             starve_told = True
+        if uin or uout:
+            notif_stall = 0
         if ret == lz.OK:
             if calls > limit:
                 problems.append("hang")
@@ -339,6 +373,11 @@ def drive(entry, m, bufs, ins, outs, irep=0, orep=0, rec=None, tail=0, xw=False,
             continue
         if ret in (lz.NO_CHECK, lz.UNSUPPORTED_CHECK, lz.GET_CHECK):
             notes.append("%s@%d" % (lz.retname(ret), s.total_in))
+            # a notification is given once, then progress must resume (Starve.tla: StallBounded)
+            notif_stall = notif_stall + 1 if (uin == 0 and uout == 0) else 0
+            if notif_stall >= bound:
+                problems.append("starve")
+                break
             if calls > limit:
                 problems.append("hang")
                 break
@@ -448,7 +487,7 @@ def run_subject(sub, budget):
 
     def one_run(plan, rec=None, tail=0, cap=None, one=None):
         alloc = lz.CountingAllocator() if use_alloc else None
-        m = make(entry, args, data, alloc)
+        m = make_with_history(entry, args, data, alloc, sub.get("prior"))
         if m.ret != lz.OK:
             unmake(m, alloc)
             return dict(ret="INIT_" + lz.retname(m.ret), tin=0, olen=0, dig=dig(b"")), []
@@ -537,7 +576,7 @@ def run_group(g):
     runs = []
     for cfg in g["runs"]:
         a = dict(g["args"]); a.update(cfg.get("args", {}))
-        m = make(g["entry"], a, data)
+        m = make_with_history(g["entry"], a, data, None, cfg.get("prior"))
         if m.ret != lz.OK:
             runs.append(dict(cfg=cfg, dig="INIT_" + lz.retname(m.ret), ret="INIT"))
             unmake(m)
